@@ -53,18 +53,18 @@ var (
 // ---------------------------------------------------------------------------
 
 type Sorts struct {
-	mapKeySort map[string]string
-	decls     []string
-	seen      map[string]bool
-	structs   []structEntry
-	anonCount int
-	strLits   map[string]string
-	strOrder  []string
-	usesStr   map[string]bool // lazily included string axioms
-	typeIDs   map[string]int
+	mapKeySort  map[string]string
+	decls       []string
+	seen        map[string]bool
+	structs     []structEntry
+	anonCount   int
+	strLits     map[string]string
+	strOrder    []string
+	usesStr     map[string]bool // lazily included string axioms
+	typeIDs     map[string]int
 	typeIDNames []string
-	funcIDs   map[string]int
-	ghostSorts map[string]bool
+	funcIDs     map[string]int
+	ghostSorts  map[string]bool
 }
 
 type structEntry struct {
